@@ -154,9 +154,12 @@ def viewRun [Add K] [Mul K] [Zero K] (wr : Gen.ViewWiring) (one : K) (nsq : K â†
 def wfField [Add K] [Mul K] [Zero K] (one : K) (s0 s1 : Int) (data : List (Fld K)) : Arr K :=
   (viewRun Gen.fieldWiring one id data (zerosArr s0 s1) one).getD (zerosArr s0 s1)
 
-/-- `Wavefront.insert(out, weight)`; `nsq z` stands for `|z^2|` -/
-def wfInsert [Add K] [Mul K] [Zero K] (nsq : K â†’ K) (data : List (Fld K)) (out : Arr K) (w : K) : Option (Arr K) :=
-  viewRun Gen.insertWiring w nsq data out w
+/-- `Wavefront.insert(out, weight)`; `nsq z` stands for `|z^2|`. `one` is `field.insert`'s own default weight 1, which is
+what applies when the regenerated wiring does NOT pass `weight=weight` on (`Gen.insertWiring.weighted = false`): the flag
+decides between `w` and `one`, so a source that drops the keyword changes this definition's value (`wfInsert_eq` and the
+C07 statement `wavefront_insert_uses_weight` then fail) -/
+def wfInsert [Add K] [Mul K] [Zero K] (one : K) (nsq : K â†’ K) (data : List (Fld K)) (out : Arr K) (w : K) : Option (Arr K) :=
+  viewRun Gen.insertWiring one nsq data out w
 
 /-- `Wavefront.intensity` -/
 def wfIntensity [Add K] [Mul K] [Zero K] (one : K) (nsq : K â†’ K) (s0 s1 : Int) (data : List (Fld K)) : Option (Arr K) :=
